@@ -13,3 +13,26 @@ pub fn control_recursion(bytes: &[u8]) -> Vec<u8> {
         bytes.to_vec()
     }
 }
+
+/// E-UNIT control: a character count used as a byte offset of a str
+pub fn control_char_index(line: &str) -> &str {
+    for (index, ch) in line.chars().enumerate() {
+        if ch == '{' {
+            return &line[0..index];
+        }
+    }
+    line
+}
+
+/// E-UNIT control (summary): returns `len - chars` and the caller slices with it
+fn control_count_from_end(input: &str) -> usize {
+    for (i, ch) in input.chars().rev().enumerate() {
+        if !ch.is_whitespace() {
+            return input.len() - i;
+        }
+    }
+    0
+}
+pub fn control_char_index_via_helper(input: &str) -> &str {
+    &input[..control_count_from_end(input)]
+}
